@@ -79,7 +79,7 @@ macro_rules
       | with_reducible exact hoare_ubErr _
       | with_reducible cl_leaf
       | ((with_reducible refine KP.set ?_); first | assumption | (simp only []; assumption))
-      | ((with_reducible refine KP.modify (fun _ h => ?_)); first | exact h | (simp only []; exact h))
+      | ((with_reducible refine KP.modify (fun _ h => ?_)); first | exact h | (simp only []; exact h) | (split <;> exact h))
       | ((with_reducible refine KP.modifyGet (fun _ h => ?_)); first | exact h | (simp only []; exact h))
       | (with_reducible refine Hoare.get_bind (fun _ _ => ?_))
       | (with_reducible refine Hoare.bind_inv ?_ (fun _ => ?_))
